@@ -417,7 +417,18 @@ def r45_glue(ctx):
             f(ctx, r)
         except absint.Unknown as u:
             r.viol(r.id.split(".")[1] + ":undecided", "the evaluation cannot interpret the current code (%s): not decided on this tree (fail closed)" % str(u)[:300], file=F)
-    return [r4, r5]
+    # the route families hand the locale of the family being generated / matched to the inner routes as a *string* (thread local) that is
+    # parsed back with the locale's FromStr: the localized segments of a locale are used only if its own name parses back to it - the
+    # as_str / from_str clauses of C13.R0 (create_locales_enum evaluated and read back)
+    from rules import c13
+    from rules.common import borrow
+    k13 = c13.r0_generated(ctx)
+    r6 = borrow(k13[0], "C14.R6", "a locale's name parses back to that locale (the route locale travels as a string)",
+                "`rewrites the localized segments`: the segments of a family are chosen by parsing the current route locale's name; a FromStr that does not accept "
+                "exactly the configured spelling (`fr-CA`) makes that family use the default locale's segments", only=r"from_str|as_str", floor=2)
+    if not k13[1] and not r6.violations:
+        r6.viol("R6:undecided", "the locale enum generator cannot be interpreted on the current code: not decided on this tree (fail closed)")
+    return [r4, r5, r6]
 
 
 def run(ctx):
